@@ -109,6 +109,8 @@ impl ProcessState {
             dbfile
         };
         let must_create = !dbfile.exists();
+        #[cfg(feature = "verif")]
+        crate::verif::delay("init_after_exists");
         let mut db: Connection;
         {
             let tx = if !must_create {
@@ -184,6 +186,8 @@ impl ProcessState {
                 tx
             };
 
+            #[cfg(feature = "verif")]
+            crate::verif::delay("init_after_schema");
             if e.runid.is_none() {
                 tx.execute(
                     "insert into Runid values \
@@ -199,6 +203,8 @@ impl ProcessState {
 
             tx.commit().map_err(RedoError::opaque_error)?;
         }
+        #[cfg(feature = "verif")]
+        crate::verif::event("runid", &format!("{:?}", e.runid));
 
         Ok(ProcessState {
             db,
@@ -1218,6 +1224,11 @@ impl Lock {
         match result {
             Ok(_) => {
                 self.owned = true;
+                #[cfg(feature = "verif")]
+                {
+                    crate::verif::event("lock_acq", &format!("fid={} how=try", self.fid));
+                    crate::verif::delay("after_lock");
+                }
                 Ok(true)
             }
             Err(Errno::EACCES) | Err(Errno::EAGAIN) => Ok(false),
@@ -1239,12 +1250,16 @@ impl Lock {
         )
         .map_err(RedoError::opaque_error)?;
         self.owned = true;
+        #[cfg(feature = "verif")]
+        crate::verif::event("lock_acq", &format!("fid={} how=wait", self.fid));
         Ok(())
     }
 
     /// Release the lock, which we must currently own.
     pub fn unlock(&mut self) -> Result<(), RedoError> {
         assert!(self.owned, "can't unlock {} - we don't own it", self.fid);
+        #[cfg(feature = "verif")]
+        crate::verif::event("lock_rel", &format!("fid={}", self.fid));
         fcntl::fcntl(
             self.manager.file.as_raw_fd(),
             FcntlArg::F_SETLK(
@@ -1360,6 +1375,11 @@ pub(crate) fn target_relpath<P: AsRef<Path>>(env: &Env, t: P) -> Result<RedoPath
 
 pub(crate) fn warn_override(name: &RedoPath) {
     log_warn!("{} - you modified it; skipping\n", name);
+}
+
+#[cfg(feature = "verif")]
+pub fn verif_realdirpath(t: &Path) -> io::Result<PathBuf> {
+    realdirpath(t).map(|p| p.into_owned())
 }
 
 /**
